@@ -140,6 +140,14 @@ func ApplyMetricsQuery(mQuery *structs.MetricsQuery, timeRange *dtu.MetricsTimeR
 			filteredTags = append(filteredTags, v)
 		}
 
+		if len(filteredTags) == 0 {
+			// All filters of the query come from a "without" clause. The remaining tag keys
+			// (allTagKeys) may belong to other metrics only, and the tags search needs at least
+			// one filter on a key of this metric to find its series, so keep the ignored keys;
+			// the aggregation drops them from the group id anyway (GetSeriesIdWithoutFields).
+			filteredTags = mQuery.TagsFilters
+		}
+
 		mQuery.TagsFilters = filteredTags
 
 		for tkey, present := range allTagKeys {
